@@ -505,7 +505,10 @@ func plainChild(req plainReq) plainResp {
 }
 
 func runPlainChildren(cfg Config, req plainReq, procs int) ([]plainResp, error) {
-	bin := filepath.Join(cfg.Bins, "simcheck.plain")
+	return runChildren(cfg, filepath.Join(cfg.Bins, "simcheck.plain"), req, procs)
+}
+
+func runChildren(cfg Config, bin string, req plainReq, procs int) ([]plainResp, error) {
 	if _, err := os.Stat(bin); err != nil {
 		return nil, fmt.Errorf("plain binary not available: %v", err)
 	}
@@ -551,10 +554,59 @@ func plainVerdict(resps []plainResp, i, w int) (distinct []string) {
 	return
 }
 
+// c19FirstWriteStage compares, for a sample of (list, writer) pairs, the bytes written as the very first
+// library call of a fresh process with the bytes written here, late in a worker that has already
+// written hundreds of other lists: a memo, cache or latch keyed too coarsely shows as a difference.
+func c19FirstWriteStage(cfg Config, srcs []ListSource, res *ShardResult) {
+	for _, src := range srcs {
+		sh := canon.HashBytes(mustJSON(src))
+		for _, w := range api.WriterFormats {
+			if Key64("first-write", sh, w)%4 != 0 {
+				continue
+			}
+			if !c19FirstWriteOne(cfg, src, w, res) {
+				return
+			}
+		}
+	}
+}
+
+// c19FirstWriteOne handles one pair; false = child trouble (stage abandoned).
+func c19FirstWriteOne(cfg Config, src ListSource, w string, res *ShardResult) bool {
+	{
+		{
+			here := invoke(src.Build(), w, Env{})
+			hereKey := here.Class
+			if here.Class == "ok" {
+				hereKey = "ok:" + canon.HashBytes(here.Out)
+			}
+			req := plainReq{Kind: "c19-plain", Sources: []ListSource{src}, Writers: []string{w}, Reps: 1}
+			resps, err := runChildren(cfg, cfg.Self, req, 1)
+			if err != nil || len(resps) != 1 || len(resps[0].Hashes) != 1 || len(resps[0].Hashes[0]) != 1 || len(resps[0].Hashes[0][0]) != 1 {
+				res.Notes = append(res.Notes, "first-write stage: child failed")
+				return false
+			}
+			res.Evaluations++
+			res.Extra["first_write_in_fresh_process"]++
+			fresh := resps[0].Hashes[0][0][0]
+			if fresh != hereKey {
+				ep := Episode{Kind: "first-write", Source: src, Writer: w}
+				b, _ := json.Marshal(ep)
+				res.Violations = append(res.Violations, Violation{Property: "C19", Class: "depends-on-process-history",
+					Signature: fmt.Sprintf("C19 %s depends-on-process-history", w),
+					Detail:    fmt.Sprintf("list=%s writer=%s: written as the first call of a fresh process -> %s; written in a process that wrote other lists before -> %s", src.Name(), w, fresh, hereKey),
+					Scenario:  b})
+			}
+		}
+	}
+	return true
+}
+
 func c19PlainStage(cfg Config, lim c19Limits, srcs []ListSource, res *ShardResult) error {
 	if len(srcs) == 0 {
 		return nil
 	}
+	c19FirstWriteStage(cfg, srcs, res)
 	req := plainReq{Kind: "c19-plain", Sources: srcs, Writers: api.WriterFormats, Reps: lim.plainReps}
 	resps, err := runPlainChildren(cfg, req, lim.plainProc)
 	if err != nil {
@@ -617,6 +669,22 @@ func replayC19(cfg Config, rf ReplayFile) (*Violation, error) {
 }
 
 func checkC19Any(cfg Config, ep Episode) *Violation {
+	if ep.Kind == "first-write" {
+		// warm-up: write a fixed set of other lists with every writer in this process, then compare with a fresh process
+		root := prng.New(1)
+		for i := 0; i < 40; i++ {
+			l := corpus.GenList(root.Derive("c19-list", i), i)
+			for _, w := range api.WriterFormats {
+				invoke(l.Build(), w, Env{})
+			}
+		}
+		res := NewShardResult()
+		c19FirstWriteOne(cfg, ep.Source, ep.Writer, res)
+		if len(res.Violations) > 0 {
+			return &res.Violations[0]
+		}
+		return nil
+	}
 	if ep.Kind == "plain-reps" {
 		req := plainReq{Kind: "c19-plain", Sources: []ListSource{ep.Source}, Writers: []string{ep.Writer}, Reps: ep.Reps}
 		resps, err := runPlainChildren(cfg, req, ep.Procs)
